@@ -126,10 +126,10 @@ CHECKS = {
     "C06": dict(
         text="Theorems (Coq, every list of lines): the parsed relation is exactly the drawn arrows with both ends resolved through the alias table (C06_relation), the components exactly the declared or referenced ones "
              "(C06_components), aliases resolve to their component and other names stand for themselves, independent of line order (C06_order_independent, Permutation). Lexical layer: every documented line form "
-             "(five declaration forms; six arrow forms x bracketed/bare references) lexes to the line it denotes for EVERY component name, alias and arrow label (C06_lex_*, tokens separated by single blanks); "
+             "(five declaration forms; six arrow forms x bracketed/bare references) lexes to the line it denotes for EVERY component name, alias and arrow label (C06_lex_*), in EVERY layout of the line - indentation, trailing blanks, runs of blanks / tabs between tokens (C06_lex_layout_independent, C06_lex_arrow_any_layout); "
              "text level: what stands outside the tag pair is ignored, a text without tags or without end tag is rejected (C06_text_outside_tags_ignored, C06_no_tags_rejected, C06_no_end_tag_rejected; texts whose only '@' are the tags). "
-             "PARTIAL: runs of blanks / indentation, texts with further '@' or repeated tags only by evaluation on instances (C06_lexical_forms_partial) and by correspondence. Tie to /repo: diagrams printed from random relations (all declaration/arrow/reference forms, "
-             "dotted names, shuffled lines, noise, text outside tags) through the real PumlParser vs the drawn relation and vs the model parser (which reads the same text).",
+             "PARTIAL: texts with further '@' or repeated tags only by evaluation on instances (C06_lexical_forms_partial) and by correspondence. Tie to /repo: diagrams printed from random relations (all declaration/arrow/reference forms, "
+             "dotted names, shuffled lines, noise, text outside tags, indentation / blank runs / tabs, LF / CRLF / CR line ends - the harness hands the model the text after Python's universal-newline translation) through the real PumlParser vs the drawn relation and vs the model parser (which reads the same text).",
         note="Python regex semantics of the parser's patterns are not modelled in general: only the documented subset is generated and modelled. Trusted: Coq kernel, extraction, driver, harness.",
         technique="Coq proof (semantic layer; lexical layer for all names) + evaluation of tag slicing instances + correspondence on printed diagrams",
         design="5/C06"),
